@@ -21,6 +21,7 @@ from vsc.model.expr_bin_model import ExprBinModel
 from vsc.model.expr_fieldref_model import ExprFieldRefModel
 from vsc.model.expr_in_model import ExprInModel
 from vsc.model.expr_literal_model import ExprLiteralModel
+from vsc.model.expr_range_model import ExprRangeModel
 from vsc.model.field_array_model import FieldArrayModel
 from vsc.model.field_model import FieldModel
 from vsc.model.field_scalar_model import FieldScalarModel
@@ -178,22 +179,24 @@ class VariableBoundVisitor(ModelVisitor):
             propagator = None
                 
             if lhs_bounds is not None and rhs_bounds is not None:
-                # Two-sided relationship involving fields
-                propagator = self.lhsvar_rhsvar_propagator(
-                    lhs_bounds, 
-                    e.op, 
-                    rhs_bounds)
-                pass
+                # Two-sided relationship involving fields. Bounds are kept
+                # as plain integers, so they only carry over between fields
+                # that the solver compares in the same interpretation
+                if lhs_fm.is_signed == rhs_fm.is_signed:
+                    propagator = self.lhsvar_rhsvar_propagator(
+                        lhs_bounds, 
+                        e.op, 
+                        rhs_bounds)
             elif lhs_bounds is not None:
                 # left-hand field and no right-hand field
-                if rhs_is_nonrand:
+                if rhs_is_nonrand and self.is_integer_bound(lhs_fm, e.rhs):
                     propagator = self.lhsvar_rhsnre_propagator(
                         lhs_bounds, 
                         e.op, 
                         e.rhs)
-            elif rhs_fm is not None:
+            elif rhs_fm is not None and rhs_bounds is not None:
                 # right-hand field and no left-hand field
-                if lhs_is_nonrand:
+                if lhs_is_nonrand and self.is_integer_bound(rhs_fm, e.lhs):
                     propagator = self.lhsnre_rhsvar_propagator(
                         e.lhs, 
                         e.op, 
@@ -202,6 +205,28 @@ class VariableBoundVisitor(ModelVisitor):
             if propagator is not None:
                 self.propagators.append(propagator)
                 
+    def is_integer_bound(self, fm, nre_e):
+        """The integer value of a non-random expression bounds a field 
+        only if the solver's fixed-width comparison sees the same integers:
+        the field must not be a signed field in an unsigned comparison, and 
+        the value must fit the comparison width without wrapping"""
+        try:
+            val = int(nre_e.val())
+            e_width = int(nre_e.width())
+            e_signed = nre_e.is_signed()
+        except Exception:
+            return False
+        
+        width = fm.width if fm.width > e_width else e_width
+        is_signed = fm.is_signed and e_signed
+        
+        if fm.is_signed and not is_signed:
+            return False
+        elif is_signed:
+            return val >= -(1 << (width-1)) and val < (1 << (width-1))
+        else:
+            return val >= 0 and val < (1 << width)
+    
     def lhsvar_rhsvar_propagator(self,
                     lhs_bounds,
                     op,
@@ -348,8 +373,13 @@ class VariableBoundVisitor(ModelVisitor):
                             # For now. This is likely a reference
                             # to an array
                             is_nre = False
+                        elif isinstance(r, ExprRangeModel):
+                            is_nre &= is_nre_v.is_nonrand(r)
+                            is_nre = is_nre and self.is_integer_bound(lhs_fm, r.lhs)
+                            is_nre = is_nre and self.is_integer_bound(lhs_fm, r.rhs)
                         else:
                             is_nre &= is_nre_v.is_nonrand(r)
+                            is_nre = is_nre and self.is_integer_bound(lhs_fm, r)
                     
                         if not is_nre:
                             break
